@@ -9,7 +9,7 @@ def replay(w):
     from fast_ticc.admm import unique_values as uv
     for f in (uv._compressed_index, uv.locations_compressed, uv.locations_index_slices,
               mc._upper_triangle_indices):
-        f.cache_clear()
+        getattr(f, 'cache_clear', lambda: None)()       # whatever memoisation the code uses
     ob = w['obligation']
     inp = w.get('inputs') or {}
     p = w.get('params') or {}
@@ -32,7 +32,7 @@ def replay(w):
         r, c = int(inp.get('r', 0)), int(inp.get('c', 0))
         tri = [(i, j) for i in range(n) for j in range(i, n)]
         try:
-            got = uv._compressed_index.__wrapped__(r, c, n)
+            got = getattr(uv._compressed_index, '__wrapped__', uv._compressed_index)(r, c, n)
             obs['index'] = got
             if c < r:
                 bad, sig = True, 'no-IndexError-below-diagonal'
@@ -84,7 +84,9 @@ def replay(w):
     A = rng.standard_normal((n, n))
     M = A + A.T
     try:
-        back = mc.reinflate_matrix(mc.compress_matrix(M))
+        first = mc.compress_matrix(M)
+        keep = np.array(first, copy=True)
+        back = mc.reinflate_matrix(first)
         v = rng.standard_normal(n * (n + 1) // 2)
         again = mc.compress_matrix(mc.reinflate_matrix(v))
         full = mc.reinflate_matrix(v)
@@ -92,6 +94,8 @@ def replay(w):
             bad, sig = True, 'reinflate-compress-not-identity'
         elif again.shape != v.shape or not np.array_equal(again, v) or not np.array_equal(full, full.T):
             bad, sig = True, 'compress-reinflate-not-identity'
+        elif not np.array_equal(first, keep) or np.shares_memory(first, again):
+            bad, sig = True, 'compressed-result-overwritten-by-a-later-call'
     except Exception as exc:
         bad, sig = True, 'helper-raises'
         obs['raised'] = repr(exc)
